@@ -75,7 +75,12 @@ func (s *Service) AttestationData(ctx context.Context,
 	softCancel()
 
 	s.attestationDataLoop2(hardCtx, started, requests, attestationDataResponses, attestationDataCounts, attestationDataProviders, respCh, errCh, responded, errored)
+	// The slot lookups below are part of this call: they may have to go to a beacon node,
+	// and are bounded by the same timeout as the requests were.
+	hardDeadline, _ := hardCtx.Deadline()
 	cancel()
+	lookupCtx, lookupCancel := context.WithDeadline(ctx, hardDeadline)
+	defer lookupCancel()
 
 	var bestAttestationDataRoot phase0.Root
 	var bestAttestationData phase0.AttestationData
@@ -83,7 +88,7 @@ func (s *Service) AttestationData(ctx context.Context,
 	bestAttestationDataSlot := phase0.Slot(0)
 	for root, response := range attestationDataResponses {
 		count := attestationDataCounts[root]
-		slot, err := s.blockRootToSlotCache.BlockRootToSlot(ctx, response[0].attestationData.BeaconBlockRoot)
+		slot, err := s.blockRootToSlotCache.BlockRootToSlot(lookupCtx, response[0].attestationData.BeaconBlockRoot)
 		if err != nil {
 			log.Debug().Stringer("root", response[0].attestationData.BeaconBlockRoot).Err(err).Msg("Failed to obtain attestation data head slot; assuming 0")
 		}
@@ -123,7 +128,7 @@ func (s *Service) AttestationData(ctx context.Context,
 
 		return nil, fmt.Errorf("majority attestation data count of %d lower than threshold %d", bestAttestationDataCount, s.threshold)
 	}
-	slot, err := s.blockRootToSlotCache.BlockRootToSlot(ctx, bestAttestationData.BeaconBlockRoot)
+	slot, err := s.blockRootToSlotCache.BlockRootToSlot(lookupCtx, bestAttestationData.BeaconBlockRoot)
 	if err != nil {
 		log.Debug().Stringer("root", bestAttestationData.BeaconBlockRoot).Err(err).Msg("Failed to obtain best attestation data head slot; assuming 0")
 	}
